@@ -55,7 +55,7 @@ UNITS += [freelist('quick', 6, 4), freelist('thorough', 9, 5)]
 def fwd(name, alias, sig, callee_alias, callee_sig, **kw):
     c = rx(callee_sig)
     return unit(name, alias, sig, names_opt={callee_alias: c}, extra_boundary=[c], hooks=False, **kw)   # names_opt: a wrapper that stops calling its callee fails a postcondition, not the extraction
-LOCKCHK_POS = [] if os.environ.get('C16_LOCKCHECK_POSITION') else ['PS_NO_LOCKCHK 1']
+LOCKCHK_POS = []      # position() is a locked accessor since /repo f804c1e: the lock-discipline obligation is always on
 PUSH_LK_SIG = QS + 'push_lk(std::unique_lock<std::mutex>&, unsigned long)'
 UNITS += [
     fwd('q_subscribe_pos', 'qw_subscribe_pos', QS + 'subscribe(%s, unsigned long)' % SUBP, 'fw_subscribe_lk_pos', QS + 'subscribe_lk(%s, unsigned long)' % SUBP),
